@@ -145,6 +145,12 @@ class RecurrenceNetwork(RecurrencePlot, Network):
                              node_weights=node_weights,
                              silence_level=silence_level)
 
+    def __cache_state__(self):
+        #  state of BOTH parent classes (the method resolution order would
+        #  otherwise hide the adjacency mutation counter of Network)
+        return (RecurrencePlot.__cache_state__(self)
+                + Network.__cache_state__(self))
+
     def __str__(self):
         """
         Returns a string representation.
